@@ -31,6 +31,10 @@ Next ==
               \* would otherwise be generated -- lookup order matters, so no reduction here
               /\ Lookup(ns, <<"k", k>>)
         \/ \E j \in DOMAIN hist : Lookup(ns, <<"echo", j>>)
+        \* the generator starts the next phase function: local identifiers are forgotten (at most once per
+        \* history, never first; targets without such a boundary ignore the event)
+        \/ /\ ns = 1 /\ hist # <<>> /\ \A j \in DOMAIN hist : hist[j][2][1] # "clear"
+           /\ Lookup(ns, <<"clear", 0>>)
 
 Spec == Init /\ [][Next]_hist
 Dump == hist = <<>> \/ PrintT("GEN " \o ToJson(hist))
